@@ -114,6 +114,9 @@ func Index(a Object) (Int, error) {
 func IndexInt(a Object) (int, error) {
 	i, err := Index(a)
 	if err != nil {
+		if _, ok := a.(*BigInt); ok && err == overflowError {
+			return 0, ExceptionNewf(IndexError, "cannot fit int into an index-sized integer")
+		}
 		return 0, err
 	}
 	intI := int(i)
